@@ -4,6 +4,7 @@
 //! A rule that does not fire on its control makes the check end with CHECK-ERROR.
 #![allow(dead_code, unused_variables, unused_mut, clippy::all)]
 
+pub mod basic_rules;
 pub mod circuit;
 pub mod detection_webs;
 pub mod gate;
